@@ -81,6 +81,22 @@ fn ops(pad: &'static str) -> Vec<Vec<S>> {
         set("s", call("rec", vec![num("3"), s()])),
         shout(s()),
         shout(a()),
+        // host values: their handles and strings live on the frame until promoted
+        set("c", call("mkc", vec![s()])),
+        set("c", call("mkc", vec![add(t(), l("h"))])),
+        S::Expr(meth(var("c"), "arg", vec![s()])),
+        S::Expr(meth(var("c"), "env", vec![st("K"), add(s(), l("v"))])),
+        S::Expr(meth(a(), "push", vec![call("mkc", vec![t()])])),
+        S::Expr(meth(a(), "push", vec![var("c")])),
+        shout(var("c")),
+        // a computed temporary passed to a function that returns its parameter unchanged
+        set("s", call("id", vec![add(s(), l("+t"))])),
+        shout(E::Arr(vec![call("id", vec![add(t(), l("<1>"))]), call("id", vec![add(t(), l("<2>"))])])),
+        shout(call("first", vec![E::Arr(vec![add(s(), l("e")), t()])])),
+        // an array parameter grown inside a loop of the callee
+        set("a", call("grow", vec![a(), s()])),
+        set("a", call("grow", vec![E::Arr(vec![]), add(t(), l("g"))])),
+        shout(call("grow", vec![E::Arr(vec![s()]), t()])),
     ];
     let mut out = Vec::new();
     for (k, op) in base.iter().enumerate() {
@@ -108,7 +124,15 @@ fn preamble(pad: &str) -> Vec<S> {
         make("s", add(l("s0"), l("s1"))),
         make("t", l("t-lit")),
         make("a", E::Arr(vec![add(l("e0"), st("x")), l("e-lit")])),
+        make("c", call("command", vec![l("prog")])),
+        func("mkc", &["q"], vec![make("k", call("command", vec![add(l("p-"), var("q"))])), S::Expr(meth(var("k"), "arg", vec![var("q")])), S::Ret(Some(var("k")))]),
+        func("grow", &["p", "w"], vec![
+            make("k", num("0")),
+            S::Loop(bin(Op::Lt, var("k"), num("5")), vec![S::Expr(meth(var("p"), "push", vec![add(var("w"), var("k"))])), set("k", add(var("k"), num("1")))]),
+            S::Ret(Some(var("p"))),
+        ]),
         func("id", &["p"], vec![S::Ret(Some(var("p")))]),
+        func("first", &["p"], vec![S::Ret(Some(idx(var("p"), num("0"))))]),
         func("mk", &[], vec![S::Ret(Some(add(l("mk"), l("val"))))]),
         func("sets", &["v"], vec![set("s", add(var("v"), l("S"))), S::Ret(Some(var("v")))]),
         func("sett", &[], vec![set("t", add(l("T1"), l("T2"))), S::Ret(Some(st("zz")))]),
@@ -136,7 +160,7 @@ fn programs(pad: &'static str, max_len: u32, core_only: bool) -> Gen<Vec<S>> {
                 let txt = print(w);
                 txt.contains("sets(") || txt.contains("sett(") || txt.contains("id(") || txt.contains("s get s")
                     || txt.contains("a.push(s)") || txt.contains("a[0] get s") || txt.contains("shout(s)")
-                    || txt.contains("shout(a)") || txt.contains("a.pop") || txt.contains("rec(")
+                    || txt.contains("shout(a)") || txt.contains("a.pop") || txt.contains("rec(") || txt.contains("mkc(") || txt.contains("grow(") || txt.contains("first(")
             })
             .collect()
     } else {
@@ -152,6 +176,7 @@ fn programs(pad: &'static str, max_len: u32, core_only: bool) -> Gen<Vec<S>> {
         p.push(shout(var("s")));
         p.push(shout(var("t")));
         p.push(shout(var("a")));
+        p.push(shout(var("c")));
         p
     })
 }
